@@ -260,7 +260,13 @@ structure RuleCfg where
   rewrite : Option Rewrite
 deriving Repr, DecidableEq
 
-/-- what the pipeline produced: `AddHeaderForUpstream` calls in order (names as written), and the cookies -/
+/-- what the pipeline produced: `AddHeaderForUpstream` calls in order (names as written), and the cookies.
+
+A `header` finalizer (`finalizers/header_finalizer.go`) makes one `AddHeaderForUpstream (name, rendered value)` call for
+**every** header it is configured with — whatever its template rendered to for this subject and request, the empty
+string and blank values included; a `cookie` finalizer likewise calls `AddCookieForUpstream` for every configured cookie.
+So `headers` lists every configured name with its rendered value (one finalizer after the other), `cookies` every
+configured cookie. -/
 structure Pipe where
   headers : Hdrs
   cookies : List (Bytes × Bytes)
@@ -425,9 +431,21 @@ def pipeFirst (ph : Hdrs) : Hdrs := firstOfEach (canonHeaders ph)
 /-- `upstreamCookies` is a map: the last value of a name wins; taken in name order -/
 def cookieMap (cs : List (Bytes × Bytes)) : List (Bytes × Bytes) := sortByKey (firstOfEach cs.reverse)
 
+/-- `sanitizeCookieName` of `net/http`: line breaks become `-` -/
+def sanitizeCookieName (n : Bytes) : Bytes := n.map fun ch => if ch = '\n' || ch = '\r' then '-' else ch
+
+/-- `validCookieValueByte` -/
+def validCookieValueByte (ch : Char) : Bool := 0x20 ≤ ch.toNat && ch.toNat < 0x7f && ch ≠ '"' && ch ≠ ';' && ch ≠ '\\'
+
+/-- `sanitizeCookieValue` (unquoted cookie): bytes that may not stand in a cookie value are dropped; what is left is
+put between double quotes when it contains a blank or a comma; an empty value stays empty -/
+def sanitizeCookieValue (v : Bytes) : Bytes :=
+  let w := v.filter validCookieValueByte
+  if w = [] then [] else if w.any (fun ch => ch = ' ' || ch = ',') then '"' :: w ++ ['"'] else w
+
 /-- `(*http.Request).AddCookie` -/
 def addCookie (h : Hdrs) (c : Bytes × Bytes) : Hdrs :=
-  let s := c.1 ++ '=' :: c.2
+  let s := sanitizeCookieName c.1 ++ '=' :: sanitizeCookieValue c.2
   if get h hCookie ≠ [] then set hCookie (get h hCookie ++ b!"; " ++ s) h else set hCookie s h
 
 def forwardedElem (peer inHost proto : Bytes) : Bytes :=
@@ -498,19 +516,25 @@ def rewriteHeaders (inH : Hdrs) (p : Pipe) (peer inHost fwdHost proto : Bytes) :
 def notWritten (k : Bytes) : Bool :=
   k = hHost || k = hUserAgent || k = b!"Content-Length" || k = b!"Transfer-Encoding" || k = b!"Trailer"
 
-/-- `User-Agent` is written from its first value, and only when that is not empty -/
+/-- a header value as `Header.Write` / `Request.write` put it on the wire, which is how the upstream reads it: without
+leading and trailing blanks and tabs (`textproto.TrimString`).  A value the pipeline rendered as blanks only is read as
+the empty value. -/
+def wireValue (v : Bytes) : Bytes := trimOWS v
+
+/-- `User-Agent` is written from its first value, and only when that is not empty (the test precedes the trimming) -/
 def uaLine (h : Hdrs) : Hdrs :=
   match values h hUserAgent with
-  | v :: _ => if v = [] then [] else [(hUserAgent, v)]
+  | v :: _ => if v = [] then [] else [(hUserAgent, wireValue v)]
   | [] => []
 
 /-- `http.Transport` asks for gzip itself when the request does not say anything about encodings -/
 def gzipLine (method : Bytes) (h : Hdrs) : Hdrs :=
   if get h hAcceptEncoding = [] && get h hRange = [] && method ≠ b!"HEAD" then [(hAcceptEncoding, b!"gzip")] else []
 
-/-- the header lines the upstream reads (framing headers left out), sorted by name -/
+/-- the header lines the upstream reads (framing headers left out), sorted by name; a line is written for every entry
+of the header map, also for an empty value -/
 def wireHeaders (method : Bytes) (h : Hdrs) : Hdrs :=
-  sortHdrs (uaLine h ++ h.filter (fun x => !notWritten x.1) ++ gzipLine method h)
+  sortHdrs (uaLine h ++ (h.filter (fun x => !notWritten x.1)).map (fun x => (x.1, wireValue x.2)) ++ gzipLine method h)
 
 /-! ## The whole path -/
 
